@@ -809,5 +809,5 @@ func Plans() []nrun.Plan {
 	add(wGroupBlock, 2)
 	add(wTxn, 1)
 	add(wShare, 1.5)
-	return ps
+	return append(ps, GenPlans()...)
 }
